@@ -50,7 +50,14 @@ def check_post(case):
         names = [str(p) for p in md.phases[0]]
         mob0, fr0 = np.array(md.mobility[0]), np.array(md.phase_fractions[0])
         post, arg = case["post"], case["post_arg"]
-        hp = HP.HomogenizationParameters(case["rule"], labyrinthFactor=case["lab"], postProcessFunction=post, postProcessArgs=arg)
+        if case.get("via_setters"):
+            # the same configuration entered through the setter functions (as HomogenizationModel's wrappers do)
+            hp = HP.HomogenizationParameters()
+            hp.setHomogenizationFunction(case["rule"])
+            hp.setLabyrinthFactor(case["lab"])
+            hp.setPostProcessFunction(post, arg)
+        else:
+            hp = HP.HomogenizationParameters(case["rule"], labyrinthFactor=case["lab"], postProcessFunction=post, postProcessArgs=arg)
         exp = _ref(mob0, names, fr0, case["rule"], case["lab"], post, arg)
         results = []
         shared = HashTable()
@@ -107,7 +114,7 @@ def _post_case(draw):
         arg = draw(st.sampled_from(phases))
     elif post == "exclude":
         arg = draw(st.lists(st.sampled_from(phases), min_size=1, max_size=2, unique=True))
-    return {"db": db, "x": x, "T": T, "rule": draw(st.sampled_from(RULES)), "lab": draw(st.sampled_from([1.0, 1.5, 2.0])), "post": post, "post_arg": arg, "shared_cache": draw(st.sampled_from([True, True, False]))}
+    return {"db": db, "x": x, "T": T, "rule": draw(st.sampled_from(RULES)), "lab": draw(st.sampled_from([1.0, 1.5, 2.0])), "post": post, "post_arg": arg, "shared_cache": draw(st.sampled_from([True, True, False])), "via_setters": draw(st.booleans())}
 
 
 def clauses():
